@@ -36,11 +36,12 @@ type FuncFact struct {
 }
 
 type Access struct {
-	Field  string `json:"field"` // pkg.Type.field
-	Func   string `json:"func"`  // pkg.(Recv).Name
-	Kind   string `json:"kind"`  // r | w
-	Locked bool   `json:"locked"`
-	Line   int    `json:"-"`
+	Field  string   `json:"field"` // pkg.Type.field
+	Func   string   `json:"func"`  // pkg.(Recv).Name
+	Kind   string   `json:"kind"`  // r | w | a (address passed to a sync/atomic function)
+	Locked bool     `json:"locked"`
+	After  []string `json:"after"` // synchronising operations lexically before the access in the same function
+	Line   int      `json:"-"`
 }
 
 type Facts struct {
@@ -253,6 +254,47 @@ func exprString(e ast.Expr) string {
 func accesses(fset *token.FileSet, pkg, fname string, fd *ast.FuncDecl, info *types.Info) []Access {
 	var out []Access
 	writes := map[*ast.SelectorExpr]bool{}
+	atomics := map[*ast.SelectorExpr]bool{}
+	type syncOp struct {
+		pos  token.Pos
+		name string
+	}
+	var syncOps []syncOp
+	ast.Inspect(fd.Body, func(n ast.Node) bool {
+		switch x := n.(type) {
+		case *ast.CallExpr:
+			name := ""
+			switch f := x.Fun.(type) {
+			case *ast.Ident:
+				name = f.Name
+			case *ast.SelectorExpr:
+				name = exprString(f.X) + "." + f.Sel.Name
+			}
+			if strings.HasPrefix(name, "atomic.") {
+				for _, a := range x.Args {
+					if u, ok := a.(*ast.UnaryExpr); ok && u.Op == token.AND {
+						if sel, ok := u.X.(*ast.SelectorExpr); ok {
+							atomics[sel] = true
+						}
+					}
+				}
+			}
+			short := name
+			if i := strings.LastIndex(name, "."); i >= 0 {
+				short = name[i+1:]
+			}
+			switch {
+			case strings.HasPrefix(name, "atomic."), short == "Wait", short == "Lock", short == "Unlock", short == "Done",
+				short == "getUpdateTime", short == "IsZero", short == "getPredecessor", short == "close":
+				syncOps = append(syncOps, syncOp{x.Pos(), name})
+			}
+		case *ast.UnaryExpr:
+			if x.Op == token.ARROW {
+				syncOps = append(syncOps, syncOp{x.Pos(), "<-" + exprString(x.X)})
+			}
+		}
+		return true
+	})
 	ast.Inspect(fd.Body, func(n ast.Node) bool {
 		switch x := n.(type) {
 		case *ast.AssignStmt:
@@ -340,6 +382,18 @@ func accesses(fset *token.FileSet, pkg, fname string, fd *ast.FuncDecl, info *ty
 		if writes[s] {
 			kind = "w"
 		}
+		if atomics[s] {
+			kind = "a"
+		}
+		after := []string{}
+		seenOp := map[string]bool{}
+		for _, op := range syncOps {
+			if op.pos < s.Pos() && !seenOp[op.name] {
+				seenOp[op.name] = true
+				after = append(after, op.name)
+			}
+		}
+		sort.Strings(after)
 		locked := false
 		for _, i := range ivs {
 			if s.Pos() >= i.from && s.Pos() < i.to {
@@ -349,7 +403,7 @@ func accesses(fset *token.FileSet, pkg, fname string, fd *ast.FuncDecl, info *ty
 		if deferUnlock && lockPos != token.NoPos && s.Pos() >= lockPos {
 			locked = true
 		}
-		out = append(out, Access{Field: key, Func: fname, Kind: kind, Locked: locked, Line: fset.Position(s.Pos()).Line})
+		out = append(out, Access{Field: key, Func: fname, Kind: kind, Locked: locked, After: after, Line: fset.Position(s.Pos()).Line})
 		return true
 	})
 	return out
